@@ -1,7 +1,7 @@
 SPECIFICATION Spec
 CONSTANTS
   NK = 4
-  XMax = 6
+  XMax = 7
   YMax = 1
   Scales = {0, 1, 2, 3, 4, 5, 6, 7, 8}
   LookupTol = "exact"
